@@ -96,3 +96,29 @@ PROPS["C17"] = dict(
     assumptions=["alphabet {a,b}; ground regular expressions"],
     explanation="denotation theorems about the regex relation bodies regenerated from the Go source; all answers of the real relations compared with a direct derivative matcher under both placeholder policies",
 )
+
+PROPS["C10"] = dict(
+    model="ConcDisj.v, ConcConj.v",
+    harness=[dict(name="main", n_quick=500, n_thorough=1200, shards_quick=1, shards_thorough=6, timeout=1500),
+             dict(name="race", race=True, n_quick=0, n_thorough=200, shards_thorough=2, coq=False, timeout=1500)],
+    trusted=_PROG_TRUSTED + ["the scheduler's choices (arrival order of worker messages, select picks) are explicit inputs of the model; real schedules are sampled with injected delays and GOMAXPROCS",
+                             "data-race freedom is a property of the Go memory model that the model cannot exhibit: the thorough tier runs the harness under the race detector as supporting validation"],
+    assumptions=_PROG_ASSUME + ["argument goals are purely relational (needed for ConjPlus's early nil)"],
+    explanation="order-independence theorems with the arrival permutation / select picks as universally quantified inputs; tie: cell traces of the concurrent combinators against the sequential model under injected delays",
+)
+
+PROPS["C11"] = dict(
+    model="Leak.v",
+    harness=[dict(name="main", n_quick=40, n_thorough=140, shards_quick=1, shards_thorough=3, coq=False, timeout=2400)],
+    trusted=_GOMINI_TRUSTED + ["'within bounded time' is modelled as 'within a bounded number of steps'; wall-clock behaviour is runtime: the harness measures goroutine counts 400ms and 550ms after the search ended, each case in its own process",
+                              "the cancel model treats post-cancel channel operations as completing at once (select with ctx.Done), and assumes relation bodies have no call on their spine (guarded)"],
+    assumptions=["goal evaluations handed to the concurrent combinators terminate"],
+    explanation="LTS models of the ConjPlus/DisjPlus message protocol, of post-cancel execution and of the limiter's ticker, with schedules as label lists; positive theorems for the repaired parameters and refutations for the others; goroutine-count deltas on the real code",
+)
+PROPS["C12"] = dict(
+    model="Limiter.v",
+    harness=[dict(name="main", n_quick=24, n_thorough=100, shards_quick=1, shards_thorough=3, coq=False, timeout=2400)],
+    trusted=_GOMINI_TRUSTED + ["timing (the 10ms refill period against the search duration) is runtime: the harness bounds completion by 8s per search"],
+    assumptions=["finite task trees whose writes are consumed"],
+    explanation="permit/ticker LTS composed with a task tree whose parents hold a permit while waiting for children: non-blocking release never blocks, every schedule terminates with the unlimited multiset of answers; refutation for the blocking release; real searches under max in 1..100",
+)
